@@ -116,6 +116,9 @@ class InputTerm:
         if ex.node_budget is not None and key not in fr.locals and len(set(ARITY[c] for c in new)) == 1:
             fr.locals[key] = True
             fr.nodes_used += ARITY[next(iter(new))]
+        hook = getattr(self.space, "on_decided", None)
+        if hook is not None:
+            hook(self, new, ex)
 
     def as_adt(self, c):
         """The variant value of this node under constructor c."""
